@@ -55,7 +55,17 @@ class Rig:
 
     # ---- observation of the real object
     def buf(self):
-        return self.bp._buffer.tobytes()
+        """the unread bytes, through the class's own accessor (an implementation may keep a consumed prefix around)"""
+        try:
+            return self.bp._buffer_tobytes()
+        except Exception:
+            return self.bp._buffer.tobytes()
+
+    def unexpected(self, what, e):
+        """an exception other than PipeTimeout out of the real object is a finding, never a harness crash"""
+        from pv.core import exc_site
+        self.problems.append(("unexpected-exception:" + exc_site(e), "%s raised %r" % (what, e)))
+        return "exc:" + type(e).__name__
 
     def waiting(self, tid):
         return self.threads[tid].state == "cv"
@@ -105,16 +115,16 @@ class Rig:
             if self.buf() != pre_buf:
                 self.problems.append(("timeout-changed-buffer", "%s -> %s" % (pre_buf.hex(), self.buf().hex())))
             return "timeout"
-        return "exc:" + type(val).__name__
+        return self.unexpected(what, val)
 
     def do(self, act):
         """act: tuple; executes on the real pipe, records request + canonical reply"""
         self._do(act)
         # lock-free point: the attached event mirrors "closed or data buffered" (event_tracks_buffer)
         ev = self.bp._event
-        if ev is not None and ev.is_set() != (self.bp._closed or len(self.bp._buffer) > 0):
+        if ev is not None and ev.is_set() != (self.bp._closed or len(self.buf()) > 0):
             self.problems.append(("event-does-not-track-buffer", "event %s, closed %s, buffered %d after %r" % (
-                ev.is_set(), self.bp._closed, len(self.bp._buffer), act)))
+                ev.is_set(), self.bp._closed, len(self.buf()), act)))
 
     def _do(self, act):
         self.schedule.append(list(act))
@@ -122,10 +132,13 @@ class Rig:
         bp = self.bp
         pre_buf, pre_closed = self.buf(), bp._closed
         if k == "feed":
-            bp.feed(act[1])
-            self.fed.append(act[1])
             self.reqs.append("feed " + hx(act[1]))
-            self.impl.append("ok")
+            self.fed.append(act[1])
+            try:
+                bp.feed(act[1])
+                self.impl.append("ok")
+            except Exception as e:
+                self.impl.append(self.unexpected("feed", e))
         elif k == "read":
             _, tid, n, to = act
             self.reqs.append("read %d %d %s" % (tid, n, "none" if to is None else fmt_num(to)))
@@ -155,27 +168,41 @@ class Rig:
             self.sched.begin(t, bp.empty)
             self.impl.append(self._outcome(t, pre_buf, pre_closed, "empty"))
         elif k == "close":
-            bp.close()
             self.reqs.append("close")
-            self.impl.append("ok")
+            try:
+                bp.close()
+                self.impl.append("ok")
+            except Exception as e:
+                self.impl.append(self.unexpected("close", e))
         elif k == "setevent":
             self.event = threading.Event()
-            bp.set_event(self.event)
             self.reqs.append("setevent")
-            self.impl.append("ok")
+            try:
+                bp.set_event(self.event)
+                self.impl.append("ok")
+            except Exception as e:
+                self.impl.append(self.unexpected("set_event", e))
         elif k == "state":
             self.reqs.append("state")
             self.impl.append(self.state_line())
             # read_ready / __len__ agree with the buffer
-            if bp.read_ready() != (len(self.buf()) > 0) or len(bp) != len(self.buf()):
-                self.problems.append(("read_ready-or-len-wrong", self.state_line()))
+            try:
+                if bp.read_ready() != (len(self.buf()) > 0) or len(bp) != len(self.buf()):
+                    self.problems.append(("read_ready-or-len-wrong", self.state_line()))
+            except Exception as e:
+                self.unexpected("read_ready/__len__", e)
         else:
             raise InfraError("C26: unknown act %r" % (act,))
 
     def finish(self):
         """close, release every parked reader, evaluate the FIFO equation"""
         self.do(("state",))
-        final_buf = self.buf()
+        # what is left is taken out through the public API (not by peeking at the representation)
+        try:
+            final_buf = self.bp.empty()
+        except Exception as e:
+            self.unexpected("empty", e)
+            final_buf = b""
         if b"".join(self.taken) + final_buf != b"".join(self.fed):
             self.problems.append(("fifo-mismatch", "fed %s taken %s buffered %s" % (
                 b"".join(self.fed).hex(), [x.hex() for x in self.taken], final_buf.hex())))
@@ -183,8 +210,11 @@ class Rig:
 
     def release(self, check=False):
         """drain + close so that parked readers return and the pooled threads are idle again"""
-        self.bp.empty()
-        self.bp.close()
+        try:
+            self.bp.empty()
+            self.bp.close()
+        except Exception as e:
+            self.unexpected("empty/close", e)
         for tid, t in self.threads.items():
             if t.state == "cv":
                 self.sched.wake(t, 0.0)
@@ -409,7 +439,8 @@ def line_level(ctx, bpmod, regions, cap):
                 elif isinstance(val, bpmod.PipeTimeout):
                     rec["result"], rec["bytes"] = "timeout", b""
                 else:
-                    raise val
+                    rec["result"], rec["bytes"] = "exc:" + type(val).__name__, b""
+                    rec["exc"] = val
             elif t.state == "line" and t.info is not None:
                 unprotected[(t.info[2], t.info[1])] = unprotected.get((t.info[2], t.info[1]), 0) + 1
 
@@ -460,12 +491,15 @@ def line_level(ctx, bpmod, regions, cap):
             depth += 1
             if depth > 200:
                 raise InfraError("C26 line-level: schedule does not end")
-        final_buf = bp._buffer.tobytes()
         # release parked readers so the pooled threads are idle again (not part of the schedule any more)
         running.clear()
         lock.always_yield = False
-        bp.empty()
-        bp.close()
+        try:
+            final_buf = bp.empty()      # what is left, through the public API
+            bp.close()
+        except Exception as e:
+            final_buf = b""
+            ops.append({"tid": 0, "op": ("empty",), "acqs": [], "result": None, "bytes": b"", "exc": e})
         for i, t in enumerate(threads):
             n = 0
             while t.state != "idle":
@@ -524,6 +558,10 @@ def line_level_evaluate(ctx, runs):
         ctx.dist("case:line-level")
         if any(o["result"] is None and not o["acqs"] for o in r["ops"]):
             ctx.dist("line-level:unfinished-op")
+        for o in r["ops"]:
+            if o.get("exc") is not None:
+                from pv.core import exc_site
+                ctx.fail("unexpected-exception:" + exc_site(o["exc"]), case, "%r raised %r" % (o["op"], o["exc"]))
         if taken + r["final"] != fed:
             ctx.fail("fifo-mismatch", case, "fed %s, handed out %s (in lock order), still buffered %s" % (
                 fed.hex(), [o["bytes"].hex() for o in takes], r["final"].hex()))
@@ -653,6 +691,27 @@ def run(ctx):
             rig.finish()
             rig.tag = "witness"
             rigs.append(rig)
+        # ---- short sequential scenarios first (so that a sequential defect is reported with a minimal input):
+        #      feed / partial read / empty / feed / read and variations
+        for k1 in (3, 9, 17):
+            for n1 in (1, 2, 4):
+                for mid in ("empty", "read-all", "none"):
+                    for k2 in (1, 3, 8):
+                        rig = Rig(bpmod, 1)
+                        rig.do(("feed", bytes(range(1, k1 + 1))))
+                        rig.do(("read", 1, n1, 0))
+                        if mid == "empty":
+                            rig.do(("empty", 1))
+                        elif mid == "read-all":
+                            rig.do(("read", 1, 100, 0))
+                        rig.do(("feed", bytes(range(101, 101 + k2))))
+                        rig.do(("read", 1, 2, 0))
+                        rig.do(("state",))
+                        rig.do(("read", 1, 100, 0))
+                        rig.do(("read", 1, 1, 0))
+                        rig.finish()
+                        rig.tag = "sequential"
+                        rigs.append(rig)
         # ---- random schedules
         n_cases = 12000 if ctx.thorough else 2000
         for ci in range(n_cases):
@@ -755,7 +814,9 @@ META = {
               "access; FIFO equation in lock order on the real code, same order replayed on the model), plus a "
               "real-thread stress run."),
     "note": ("Trusted: Lean kernel + 3 standard axioms; pv.lib_coop (cooperative stand-ins for Lock/Condition/time); "
-             "threading.Condition semantics. Wake-ups are over-approximated (any parked reader may wake at any time with "
+             "threading.Condition semantics. Every exception other than PipeTimeout that comes out of the real object is a "
+             "reported finding (never a harness crash); the buffer is observed through the class's own accessor and the "
+             "FIFO equation closes with a public empty(), so a changed internal representation is still decided. " Wake-ups are over-approximated (any parked reader may wake at any time with "
              "any elapsed time), so the theorems cover every behaviour of the real condition variable. Time is integer "
              "ticks in the model; the harness uses integer-valued floats."),
     "technique": "Lean 4 proof (induction over schedules, step invariants) + deterministic-schedule differential correspondence",
